@@ -23,27 +23,35 @@ TECHNIQUE = ("Coq proof: invariants by induction over arbitrary spike histories 
              "signal split, bound routing) over the per-synapse trainer models of C08 and C18 plus a new model of "
              "LinearHomeostasis and of Accumulator.update; kernels re-translated from the source on every run; models tied "
              "to the code by differential correspondence on real layers; docstring-level direct oracle")
-LEVEL_TEXT = ("see EXPLANATION")
-LEVEL_NOTE = ("Trusted: Coq kernel + stdlib real axioms; translator for the trace / bounding / stdkernel kernels; the hand-written "
-              "models C08/Stdp.v, C18/DelayAdj.v (validated by their own checks and again here) and C09/Split.v (LinearHomeostasis "
-              "per parameter element, Accumulator.update with default / list / full bind) validated by correspondence only. "
-              "NOT proved: floating-point rounding; delays between two steps (correspondence only); per-sample reward with a "
-              "non-sum reduction and amax (non-negativity is proved for them, the signed-rule identity is not: it is false or "
-              "undefined there). Known finding: LinearHomeostasis hands k.clamp_max(0) (<= 0) as the depressing part "
-              "(homeostasis_refuted), so pos - neg = |k| and the parameter moves away from the target half of the time.")
-EXPLANATION = ("Machine-checked (Coq, reals), for ALL spike histories, batch sizes, signals and the four sign modes: both parts of "
-               "every STDP / StableSTDP / TripletSTDP / StableTripletSTDP / MSTDP / MSTDPET call and of the accumulator are "
-               ">= 0 (invariant: every recorded trace is >= 0) [stdp_run_parts_nonneg, stdp_acc_parts_nonneg]; the parts are "
-               "exactly the split of the signed rule by the sign of the learning rate (times the reward) "
-               "[stdp_parts_none, stdp_parts_scalar, hebbian_causal_is_potentiation], a negated reward swaps the parts "
-               "[reward_flip], a per-sample reward is the sum of the single-sample splits [persample_split]; over whole runs "
-               "the potentiating (depressing) part of pair STDP is the pair sum of the terms with non-negative (negative) rate "
-               "[stdp_parts_pairsum]; the same for the delay-adjusted / kernel trainers (re-exported from C18: parts_nonneg, "
-               "da_stdp_parts, kernel_fwd_net, rule_formula ...) and clamp_split; Accumulator.update applies the upper-bound "
-               "function to the potentiating part only and the lower-bound one to the depressing part only "
-               "[update_list_routing, update_full_routing, hebbian_soft_bounded]; LinearHomeostasis: rate = spike count / "
-               "steps [ca_rate_is_mean], pos >= 0, neg <= 0, pos + neg = documented rule, pos - neg = |.| "
-               "[homeo_*], and the direction claim is REFUTED [homeostasis_refuted, homeo_above_target_moves_away].")
+LEVEL_NOTE = ("Trusted: Coq kernel + stdlib real axioms (reported per obligation); translator for the Gen/Trace, Gen/Bounding, "
+              "Gen/Stdkernels kernels; the hand-written trainer models (coq/C08/Stdp.v, coq/C18/DelayAdj.v, coq/C09/Split.v) "
+              "validated by correspondence only. Not composed: whole-run parts for batches > 1 (per-call batch theorems only), "
+              "per-sample reward with non-sum reductions (non-negativity only), delays between two steps, floating-point "
+              "rounding. Known finding: LinearHomeostasis' depressing part is negative-valued (tests pin it).")
+LEVEL_TEXT = ("Machine-checked (Coq, reals), for ALL spike histories, batch sizes, signals, reductions and the four sign modes: "
+              "both parts of every STDP / StableSTDP / TripletSTDP / StableTripletSTDP / MSTDP / MSTDPET call and of the "
+              "accumulator are >= 0 - invariant 'every recorded trace is >= 0' along arbitrary runs, delays on or off the grid "
+              "[stdp_run_parts_nonneg, stdp_acc_parts_nonneg]; the parts are exactly the split of the signed rule by the sign "
+              "of the rate (times the reward) [stdp_parts_none, stdp_parts_scalar, stdp_net_none/scalar, "
+              "hebbian_causal_is_potentiation, antihebbian_causal_is_depression]; a negated reward swaps the parts "
+              "[reward_flip]; a per-sample reward is the sum of the single-sample splits [persample_split]; batches add / "
+              "average part by part [batch_parts_sum/mean]; over whole single-sample runs the accumulated potentiating "
+              "(depressing) part is the pair sum of the terms whose rate (x reward) is >= 0 (< 0) for pair STDP "
+              "[stdp_parts_pairsum, hebbian_parts_pairsum], triplet STDP [triplet_parts_run], MSTDP [mstdp_parts_run] and "
+              "MSTDPET [mstdpet_parts_run]; the delay-adjusted and kernel trainers: re-exported C18 theorems (parts_nonneg for "
+              "every trainer / kernel / signal, da_stdp(d)_parts, kernel_fwd_net, rule_formula, da_mstdp(d)_*_rule) and "
+              "clamp_split; Accumulator.update applies the upper-bound function to the potentiating part only and the "
+              "lower-bound function to the depressing part only, for the list and the full form of bind and the generated "
+              "bounding kernels [update_list_routing, update_list_value, upper_bound_only_sees_potentiation, bind_update_*], "
+              "composed with the trainer [hebbian_soft_bounded, soft_bounded_stays_in_range]; LinearHomeostasis: the monitor "
+              "holds spike count / steps for every unit along every run [ca_rate_is_mean, h_run_rate_is_mean], pos >= 0 but "
+              "neg <= 0, pos + neg = documented rule, pos - neg = reduction of |k| [homeo_pos_nonneg, homeo_neg_nonpos, "
+              "homeo_sum_is_rule, homeo_net_is_abs], correct when all rates are at or below target "
+              "[homeo_rates_below_target_ok] and REFUTED otherwise: for every batch of rates at or above target the applied "
+              "change is minus the documented one [homeo_rates_above_target_moves_away, "
+              "homeostasis_always_spiking_raises_weight, homeostasis_refuted, homeostasis_delay_refuted, "
+              "homeostasis_breaks_soft_bounds].")
+EXPLANATION = LEVEL_TEXT
 HEADER = ("From Coq Require Import List ZArith Bool PrimFloat.\n"
           "From Inferno Require Import Base.Num Base.NumF C08.Stdp C09.Split C09.SplitExec.\n"
           "Import ListNotations.\nOpen Scope float_scope.\n")
@@ -570,6 +578,9 @@ def strip(c):
     return c
 
 
+REPAIRED = [0]
+
+
 def evaluate(cases):
     """-> impl results, mismatches, oracle failures (all, including instances of the known finding)"""
     impl = F.run_impl(IMPL, {"cases": cases})
@@ -608,9 +619,15 @@ def evaluate(cases):
         if c["kind"] == "homeo":
             a, n = spans[i]
             d = compare_homeo(c, r, model[a:a + n])
+            ofl = oracle_homeo(c, r)
+            if d is not None and not ofl and isinstance(d, dict) and d.get("what") in ("neg part", "aneg part", "parameter after update()"):
+                # the model mirrors the known defect (negative-valued depressing part); an implementation that hands the
+                # documented non-negative magnitude instead satisfies the property's oracle: not an alarm (DESIGN section 5)
+                REPAIRED[0] += 1
+                d = None
             if d is not None:
                 mismatches.append({"case": c, "detail": d})
-            for det, sg in oracle_homeo(c, r):
+            for det, sg in ofl:
                 fails.append({"case": c, "detail": det, "signature": sg})
         elif c["kind"] == "stdp":
             a, n = spans[i]
@@ -671,7 +688,8 @@ def run(ctx):
     rng = random.Random(ctx["seed"])
     quick = ctx["tier"] == "quick"
     c18.STATS.clear()
-    n_h, n_s, n_c = (150, 150, 24) if quick else (2500, 2500, 600)
+    REPAIRED[0] = 0
+    n_h, n_s, n_c = (150, 150, 24) if quick else (1500, 1500, 400)
     cases = load_corpus() + [copy.deepcopy(WITNESS)]
     cases += [gen_homeo(rng) for _ in range(n_h)]
     # every trainer x sign mode at least twice
@@ -724,6 +742,7 @@ def run(ctx):
         "homeo_param_distribution": dict(Counter(c["param"] for c in homeo)),
         "homeo_conn_distribution": dict(Counter(c["conn"] for c in homeo)),
         "homeo_cases_showing_the_finding": len(cands),
+        "homeo_cases_where_impl_satisfies_the_oracle_but_not_the_defect_model": REPAIRED[0],
         "finding_listed": known_listed(),
         "stdp_trainer_distribution": dict(Counter(c["trainer"] for c in stdp)),
         "stdp_sign_modes": dict(Counter(("+" if c["hp"]["lr_post"] >= 0 else "-") + ("+" if c["hp"]["lr_pre"] >= 0 else "-") for c in stdp)),
